@@ -97,7 +97,13 @@ def _inverse_np(north, east, a, invf, k0=1.0):
         phi = np.arctan(np.sinh(psi + e * np.arctanh(e * np.sin(phi))))
     lat = np.degrees(phi)
     dlon = np.degrees(zeta.imag)
-    _, _, k, gam = forward_np(lat, dlon, a, invf, k0)
+    nb, eb, k, gam = _forward_np(lat, dlon, a, invf, k0)
+    # the Newton iteration may land on another sheet of the analytic continuation (grid points that lie beyond a pole:
+    # |northing| larger than the quarter meridian).  Such a root does not reproduce the grid point through the REAL forward
+    # mapping and is reported as NaN (outside the domain) instead of a plausible-looking latitude.
+    bad = ~(np.abs((nb + 1j * eb) - zt) <= 1e-6)
+    lat = np.where(bad, np.nan, lat)
+    dlon = np.where(bad, np.nan, dlon)
     return lat, dlon, k, gam
 
 
